@@ -255,3 +255,26 @@ define void @f(%T %p, i32** %pp) {
   store %T %p, i32** %pp
   ret void
 }
+;;; ATOM types/names-with-numbers-beyond-64-bits
+%struct.anon.18446744073709551616 = type { i8 }
+%struct.anon.18446744073709551617 = type { i16 }
+%struct.anon.18446744073709551618 = type { i32 }
+%struct.anon.18446744073709551619 = type { i64 }
+%struct.anon.36893488147419103232 = type { i8, i8 }
+%struct.anon.36893488147419103231 = type { i8, i16 }
+%struct.anon.99999999999999999999999 = type { i8, i32 }
+%struct.anon.100000000000000000000000 = type { i8, i64 }
+$c.18446744073709551620 = comdat any
+$c.18446744073709551619 = comdat any
+$c.18446744073709551618 = comdat any
+$c.18446744073709551617 = comdat any
+@a = global %struct.anon.18446744073709551616 zeroinitializer, comdat($c.18446744073709551617)
+@b = global %struct.anon.18446744073709551617 zeroinitializer, comdat($c.18446744073709551618)
+@c = global %struct.anon.18446744073709551618 zeroinitializer, comdat($c.18446744073709551619)
+@d = global %struct.anon.18446744073709551619 zeroinitializer, comdat($c.18446744073709551620)
+@e = global { %struct.anon.36893488147419103232, %struct.anon.36893488147419103231, %struct.anon.99999999999999999999999, %struct.anon.100000000000000000000000 } zeroinitializer
+!n.18446744073709551619 = !{!0}
+!n.18446744073709551618 = !{!0}
+!n.18446744073709551617 = !{!0}
+!n.18446744073709551616 = !{!0}
+!0 = !{}
